@@ -62,6 +62,8 @@ func genC06(t *rapid.T) C06Case {
 	if !isKnownSig(sigAliasShared) {
 		p.Ann = append(p.Ann, annChoice{"server-alias", []string{"alias.local", "alias2.local"}})
 	}
+	// --annotations-prefix with three prefixes: keys declared with the 2nd and the 3rd one conflict
+	p.PrefixDupAnn = chanceT(t, "extraprefixes", 40)
 	g := newG(t, p)
 	g.genWorld()
 	for _, ns := range g.P.NS {
@@ -71,7 +73,7 @@ func genC06(t *rapid.T) C06Case {
 	for _, o := range g.W.OfKind(world.KIngress) {
 		o.Created = o.Created % 2
 	}
-	c := C06Case{World: WorldCase{Params: ctlsim.Params{Shards: rapid.SampledFrom([]int{0, 0, 3}).Draw(t, "shards")}}}
+	c := C06Case{World: WorldCase{Params: ctlsim.Params{Shards: rapid.SampledFrom([]int{0, 0, 3}).Draw(t, "shards"), ExtraAnnPrefixes: p.PrefixDupAnn}}}
 	for _, o := range g.W.List() {
 		c.World.Objs = append(c.World.Objs, o.Clone())
 	}
